@@ -101,7 +101,8 @@ ServeVerdict(e) ==
       fastHit == { i \in Acc(H, e.m) : /\ RouteText(H[i].r) = e.raw /\ H[i].hdr = <<>>
                                        /\ \A j \in 1..Len(H[i].r.segs) : H[i].r.segs[j].k = "S" }
       \* D3: an expression with its own capture group shifts the sub-match indexes
-      grp == \E i \in Acc(H, e.m) : \E j \in 1..Len(H[i].r.segs) : H[i].r.segs[j].k = "R" /\ H[i].r.segs[j].grp
+      \* (the route layer P dispatches to contains such an expression; the real outcome then is anything)
+      grp == w.reg # 0 /\ \E j \in 1..Len(H[w.reg].r.segs) : H[w.reg].r.segs[j].k = "R" /\ H[w.reg].r.segs[j].grp
       \* D5 (inverse law only): a bind-parameter list renders only its first name
       multi(v) == v.reg # 0 /\ \E j \in 1..Len(H[v.reg].r.segs) : \E q \in 1..Len(H[v.reg].r.segs[j].els) : H[v.reg].r.segs[j].els[q].g = 2
       goodNoRb(v) == /\ v.reg = e.reg /\ v.reg # 0 /\ P_ParamsOK(H, v, e.p, e.dec, e.decok, e.params, orc)
